@@ -47,6 +47,11 @@ ADDR = ("10.0.0.9", 10022)
 PARMS = (ADDR[0], ADDR[1], SPA, CLI)  # what a client uses to send: SRCCN = parms[3], DESCN = parms[2]
 ID_PAIRS = [(SPA, CLI), (b"", b""), (b"A", b"B"), (b"SPA" + b"9" * 60, b"AND" + b"z" * 60), (b"SPA|1", b"IOS|2"),
             (bytes(range(0x80, 0xA0)), bytes(range(0xE0, 0xFF))), (CLI, SPA)]
+# identifiers are raw bytes (SPA + MAC address bytes, IOS + whatever the app chose): every single byte value inside an
+# identifier, on either side (a complete closing tag inside an identifier is inherently ambiguous and not demanded)
+ID_PAIRS += [(b"SPA\x00\x1f" + bytes([c]) + b"\x10\x20\x30", CLI) for c in range(256)]
+ID_PAIRS += [(SPA, b"IOS" + bytes([c]) + b"my phone" + bytes([c])) for c in range(256)]
+ID_PAIRS += [(b"SPA<>", b"IOS</>"), (b"<", b">"), (b"SPA</SRCC", b"IOS<DESCN"), (b"\n", b"\r\n")]
 
 
 class _Sock:
@@ -79,6 +84,19 @@ def acceptors(content):
 
 class Bad(Exception):
     pass
+
+
+# owner -> {len(content): content}: earlier messages of the family, of other shapes (seeded so that the order in which
+# workers happen to receive cases does not matter)
+_PREV = {
+    "PackCommand": {len(x): x for x in (wire.spack_set(201, 6, 62, 59, 0x1234, 2, 0xBEEF), wire.spack_set(202, 6, 62, 59, 0x0102, 1, 7),
+                                        wire.spack_key(203, 6, 9))},
+    "StatusBlock": {len(x): x for x in (wire.statu(5, 0, 1024), wire.statv(1, 2, b"\x55" * 39))},
+    "Version": {len(x): x for x in (wire.seq_req(b"AVERS", 9), wire.svers((1, 2, 3), (4, 5, 6)))},
+    "GetChannel": {len(x): x for x in (wire.seq_req(b"CURCH", 9), wire.chcur(10, 33))},
+    "Watercare": {len(x): x for x in (wire.seq_req(b"GETWC", 9), wire.wcget(3))},
+    "Reminders": {len(x): x for x in (wire.seq_req(b"REQRM", 9), wire.rmreq([(1, 2), (2, -3)]))},
+}
 
 
 def check_packet(h, ref_content, owner, decode, parms=PARMS):
@@ -120,6 +138,16 @@ def check_packet(h, ref_content, owner, decode, parms=PARMS):
                         if rnd == 0 and cls is D.GeckoPartialStatusBlockProtocolHandler and ref_content.startswith(b"STATP"):
                             peer.handle(wire.statp([(9, b"\x09\x09")]), ph.parms)
                             peer.changes.clear()  # the blocking client clears the list after applying it
+                        elif rnd == 0:
+                            # ... after earlier messages of OTHER shapes of the same family (e.g. a set-value before a key press)
+                            for ln, prev in list(_PREV.get(owner, {}).items()):
+                                if ln != len(ref_content):
+                                    try:
+                                        peer.handle(prev, ph.parms)
+                                    except Exception:  # noqa
+                                        pass
+                                    if peer.should_remove_handler:
+                                        peer = _mk(cls)
                         peer.handle(ref_content, ph.parms)
                 except Exception as e:  # noqa
                     raise Bad(("decode-raised", f"peer {cls.__name__} raised {e!r} on {ref_content[:40]!r}"))
@@ -130,6 +158,9 @@ def check_packet(h, ref_content, owner, decode, parms=PARMS):
                     peer.changes.clear()
                 if peer.should_remove_handler:
                     break  # a one-shot reply handler: it retires after this message, a second decode is not its contract
+        d = _PREV.setdefault(owner, {})
+        if len(d) < 8 and len(ref_content) not in d:
+            d[len(ref_content)] = ref_content
 
 
 def _drive(coro):
